@@ -188,6 +188,10 @@ impl Pool {
             let mut r = Rng::new(mix2(0xF00D_F00D, i));
             inputs.push(gen::recipe(&mut r));
         }
+        for i in 0..6u64 {
+            let mut r = Rng::new(mix2(0xB16B_16, i));
+            inputs.push(gen::recipe_large(&mut r));
+        }
         Pool { inputs }
     }
 }
@@ -326,6 +330,8 @@ pub fn gen_scenario(run_seed: u64, pool: &Pool) -> Scenario {
             twin(&inputs[of], &mut r)
         } else if r.chance(3, 5) {
             r.pick(&pool.inputs).clone()
+        } else if r.chance(1, 25) {
+            gen::recipe_large(&mut r)
         } else {
             gen::recipe(&mut r)
         };
